@@ -1,6 +1,7 @@
 """FMM glue (api/fmm/*, FunctionSpace.map_to_points): near-field kernels, evaluator terms, index bounds, global state."""
 
 import ast
+import re
 
 from . import assemblers as A
 from . import kernels as K
@@ -708,3 +709,108 @@ def _transform_bindings_unguarded(maker, space_roles):
             if isinstance(e, ast.Name) and e.id != "_":
                 env[e.id] = v
     return env, [], None
+
+
+# ---------------------------------------------------------------- near-field correction: neighbour set and flat layouts
+
+
+def near_field_layout(ctx):
+    """numba_evaluate_local_interactions / get_local_interaction_matrix_impl: the correction runs over exactly the
+    CSR element neighbours (elements sharing a vertex, self included: the pairs the dense assembler treats as
+    singular), reads the kernel output in the layout the kernels write (4*(t*NS + j) + c), addresses rows as
+    4*(global target point) + c (what ExafmmInterface.evaluate reshapes to (-1, 4)) and columns / coefficients as
+    global source points numbered element-major."""
+    from .alg import V as _V
+
+    r = ctx.rule("FMM-NEAR-LAYOUT", "near-field correction: source elements = CSR neighbours of the target element; kernel output read at 4*(t*NS + j) + c; rows 4*(np*target + t) + c; columns np*source + s", 7)
+    m = ctx.repo.mod(FH)
+    for fname in ("numba_evaluate_local_interactions", "get_local_interaction_matrix_impl"):
+        fn = m.fn(fname)
+        defs = roles.Defs(fn)
+        S = roles.stores(fn.body, defs, lv=False)
+        G = arg_names(fn)[0]
+        # deepest stores: 5 loops (target element, target point, component, source element index, source point)
+        deep = [s for s in S if len(s.loops) == 5 and isinstance(s.tnode, ast.Subscript)]
+        ok, why, line = False, "innermost stores not found", fn.lineno
+        if deep:
+            lT, lP, lC, lS, lQ = deep[0].loops
+            line = deep[0].node.lineno
+            names = [l.target.id if isinstance(l.target, ast.Name) else None for l in (lT, lP, lC, lS, lQ)]
+            if all(names):
+                te, tp, ci, sei, spi = (_V.atom(n) for n in names)
+                npnt = _poly_of(lP.iter.args[0], defs) if isinstance(lP.iter, ast.Call) and len(lP.iter.args) == 1 else None
+                nn = _poly_of(lS.iter.args[0], defs) if isinstance(lS.iter, ast.Call) and len(lS.iter.args) == 1 else None
+                four = isinstance(lC.iter, ast.Call) and len(lC.iter.args) == 1 and isinstance(lC.iter.args[0], ast.Constant) and lC.iter.args[0].value == 4
+                same_np = npnt is not None and isinstance(lQ.iter, ast.Call) and len(lQ.iter.args) == 1 and _poly_of(lQ.iter.args[0], defs).eq(npnt)
+                # neighbour set
+                nbr = roles.expect("_np.sort(G.element_neighbor_indices[G.element_neighbor_indexptr[T]:G.element_neighbor_indexptr[1 + T]])", defs, lS.lineno, lv=False, G=G, T=names[0])
+                se_defs = [s for s in S if s.op == "=" and isinstance(s.tnode, ast.Name) and s.loops == (lT,) and s.value in (nbr, nbr.replace("_np.sort(", "", 1)[:-1])]
+                nn_want = roles.expect("G.element_neighbor_indexptr[1 + T] - G.element_neighbor_indexptr[T]", defs, lS.lineno, lv=False, G=G, T=names[0])
+                nn_ok = roles.canon(lS.iter.args[0], defs).replace(" ", "") == nn_want if nn is not None else False
+                set_ok = len(se_defs) == 1 and nn_ok
+                SEname = se_defs[0].target if se_defs else None
+                # the reads of the kernel output and of the coefficients inside the innermost statement(s)
+                reads = []
+                for s in deep:
+                    for n in ast.walk(s.vnode):
+                        if isinstance(n, ast.Subscript) and isinstance(n.value, ast.Name) and not isinstance(n.slice, (ast.Tuple, ast.Slice)):
+                            reads.append((n.value.id, n.slice))
+                inter = [ix for nm, ix in reads if defs.lookup(nm, line) and isinstance(defs.lookup(nm, line)[1], ast.Call) and unparse(defs.lookup(nm, line)[1].func) == arg_names(fn)[3 if fname.startswith("numba") else 2]]
+                lay_ok = bool(inter) and nn is not None and npnt is not None and all(_poly_of(ix, defs).eq(_V.const(4) * tp * nn * npnt + _V.const(4) * sei * npnt + _V.const(4) * spi + ci) for ix in inter)
+                SE = _V.atom(roles.expect("SE[K]", defs, line, lv=False, SE=SEname, K=names[3])) if SEname else None
+                col_want = (npnt * SE + spi) if SE is not None and npnt is not None else None
+                row_want = (_V.const(4) * npnt * te + _V.const(4) * tp + ci) if npnt is not None else None
+                if fname.startswith("numba"):
+                    acc = [s for s in deep if s.op == "Add="]
+                    row_ok = len(acc) == 1 and row_want is not None and _poly_of(acc[0].tnode.slice, defs).eq(row_want)
+                    coefs = [ix for nm, ix in reads if nm == arg_names(fn)[1]]
+                    col_ok = len(coefs) == 1 and col_want is not None and _poly_of(coefs[0], defs).eq(col_want)
+                else:
+                    idx = [s for s in deep if s.op == "=" and unparse(s.tnode.value) not in ("data",) and "source_element" in unparse(s.vnode) or (s.op == "=" and col_want is not None and _safe_eq(_poly_of(s.vnode, defs), col_want))]
+                    col_ok = any(col_want is not None and _safe_eq(_poly_of(s.vnode, defs), col_want) for s in deep if s.op == "=")
+                    ptr = [s for s in S if len(s.loops) == 3 and s.loops == (lT, lP, lC) and isinstance(s.tnode, ast.Subscript) and s.op == "="]
+                    row_ok = len(ptr) == 1 and row_want is not None and _poly_of(ptr[0].tnode.slice, defs).eq(row_want)
+                ok = four and same_np and set_ok and lay_ok and row_ok and col_ok
+                why = "4 components: %s; same point count for targets and sources: %s; source elements = sorted CSR neighbours of the target with matching count: %s; kernel output read at 4*(t*NS + j) + c: %s; rows 4*(np*target + t) + c: %s; columns np*source element + s: %s" % (
+                    four, same_np, set_ok, lay_ok, row_ok, col_ok)
+        r.check(ok, fname, FH, fname, line, "near-field layout of " + fname, why)
+    # the consumer: ExafmmInterface.evaluate subtracts (correction @ vec).reshape([-1, 4])
+    ex = ctx.repo.mod(EX).fn("ExafmmInterface.evaluate")
+    d = roles.Defs(ex)
+    sub = [s for s in roles.stores(ex.body, d, lv=False) if s.op == "Sub=" and isinstance(s.tnode, ast.Name)]
+    vec = arg_names(ex)[1]
+    okc = len(sub) == 1 and sub[0].value.replace(" ", "") == ("(self._singular_correction@%s).reshape([USub(1),4])" % vec) and any("apply_singular_correction" in g[0] for g in sub[0].guards)
+    r.check(okc, "ExafmmInterface.evaluate", EX, ex.name, sub[0].node.lineno if sub else ex.lineno, "near-field correction consumer", "the correction is not subtracted as (correction @ vec).reshape([-1, 4]) (rows = 4*target point + component)")
+    # geometry of the local point sets: column block sei of the source points = points of source element sei
+    for fname in ("numba_evaluate_local_interactions", "get_local_interaction_matrix_impl"):
+        fn = m.fn(fname)
+        defs = roles.Defs(fn)
+        S = roles.stores(fn.body, defs, lv=False)
+        blk = [s for s in S if len(s.loops) == 2 and isinstance(s.tnode, ast.Subscript) and isinstance(s.tnode.slice, ast.Tuple) and s.op == "="]
+        okb = False
+        if len(blk) == 1:
+            lT, lS = blk[0].loops
+            sei = lS.target.id
+            npn = "local_points.shape[1]" if "local_points" in arg_names(fn) else None
+            want_t = roles.expect("A[:, N * K:N * (1 + K)]", defs, blk[0].node.lineno, lv=False, A=unparse(blk[0].tnode.value), N="%s.shape[1]" % arg_names(fn)[2 if fname.startswith("numba") else 1], K=sei)
+            se_names = [s.target for s in S if s.op == "=" and isinstance(s.tnode, ast.Name) and s.loops == (lT,) and "element_neighbor_indices" in s.value]
+            v = blk[0].vnode
+            okb = blk[0].target == want_t and isinstance(v, ast.Subscript) and isinstance(v.value, ast.Name) and any(
+                blk[0].value == roles.expect("GP[SE[K], :, :]", defs, blk[0].node.lineno, lv=False, GP=v.value.id, SE=nm, K=sei) for nm in se_names)
+        r.check(okb, fname + " source point blocks", FH, fname, blk[0].node.lineno if blk else fn.lineno, "near-field source blocks of " + fname, "column block j of the local source points is not the point set of the j-th neighbouring element")
+        gp = [s for s in S if len(s.loops) == 1 and s.op == "=" and isinstance(s.tnode, ast.Subscript) and isinstance(s.vnode, ast.Call) and unparse(s.vnode.func).endswith(".local2global")]
+        okg = False
+        if len(gp) == 1 and isinstance(gp[0].loops[0].target, ast.Name):
+            e_ = gp[0].loops[0].target.id
+            LP = arg_names(fn)[2 if fname.startswith("numba") else 1]
+            okg = (gp[0].value == roles.expect("G.local2global(E, LP)", defs, gp[0].node.lineno, lv=False, G=arg_names(fn)[0], E=e_, LP=LP)
+                   and gp[0].target == roles.expect("A[E, :, :]", defs, gp[0].node.lineno, lv=False, A=unparse(gp[0].tnode.value), E=e_)
+                   and roles.canon(gp[0].loops[0].iter, defs).replace(" ", "") == roles.expect("range(G.elements.shape[1])", defs, gp[0].node.lineno, lv=False, G=arg_names(fn)[0]))
+        r.check(okg, fname + " global points", FH, fname, gp[0].node.lineno if gp else fn.lineno, "near-field global points of " + fname, "global_points[e] is not grid_data.local2global(e, local_points) for every element e")
+
+
+def _safe_eq(a, b):
+    try:
+        return a.eq(b)
+    except Exception:
+        return False
